@@ -67,6 +67,9 @@ func UnMarshalBlock(bytes []byte) (*Block, error) {
 		return nil, error
 	}
 	block := PbToBlock(b)
+	if block == nil || block.Header == nil {
+		return nil, fmt.Errorf("Unmarshal Block error: header missing or malformed")
+	}
 	return block, nil
 }
 
@@ -78,6 +81,9 @@ func UnMarshalBlockHeader(bytes []byte) (*BlockHeader, error) {
 		return nil, error
 	}
 	header := PbToBlockHeader(b)
+	if header == nil {
+		return nil, fmt.Errorf("Unmarshal BlockHeader error: header missing or malformed")
+	}
 	return header, nil
 }
 
